@@ -16,7 +16,7 @@ func init() {
 const htmlTplPath = "html/template"
 
 func checkC01(r *Run) {
-	r.Rule("R1", "only the sink writes: every Write on a *strings.Builder in the evaluator package happens inside the output sink", 7)
+	r.Rule("R1", "only the sink writes: every Write on a *strings.Builder in the evaluator package happens inside the output sink", 4)
 	r.Rule("R2", "typed dispatch of the sink: string and bool are written through the HTML escaper only; template.HTML and HTMLer are written verbatim exactly once; containers and wrappers recurse into the sink; unescaped renderings only for the frozen safe table (numbers, time, fmt.Stringer); first-match order keeps HTML out of escaping arms and strings out of verbatim arms", 10)
 	r.Rule("R3", "statement-level routing: the value handed to the sink by the top-level loop and by BlockWith is the evaluation result itself (no conversion in between)", 2)
 	r.Rule("R4", "provenance of trusted HTML: every conversion to template.HTML in the module has an operand that is template text, already rendered output, \"\", json.Marshal output, raw's own parameter, or debug's <pre> wrapper", 9)
@@ -45,6 +45,9 @@ func sinkWritesRule(r *Run, rule string) {
 	}
 	for _, f := range w.Funcs("") {
 		info := f.Pkg.TypesInfo
+		if sig := f.Obj.Type().(*types.Signature); sig.Recv() != nil && f.Decl.Name.Name == "String" && sig.Params().Len() == 0 && sig.Results().Len() == 1 {
+			continue // a fmt.Stringer implementation builds its own text; it is not template output
+		}
 		for _, c := range callsIn(f.Decl.Body, false) {
 			if !isBuilderWrite(info, c) {
 				continue
@@ -651,8 +654,8 @@ func reflectStringRule(r *Run, rule string) {
 
 func checkC02(r *Run) {
 	r.Rule("R1", "one ordered write per statement: the top-level evaluator has a single range over the program's statements, one sink call per iteration after the error check, and returns the builder's content only after the loop", 3)
-	r.Rule("R2", "silent statements are silent: at top level only return-style statements, literal text and let reach the sink; inside blocks an expression statement yields a value only if its NODE is literal text or the value is a control-flow object", 4)
-	r.Rule("R3", "literal text is not transformed after the lexer: token literal -> HTMLLiteral.Value -> template.HTML(Value) -> verbatim arm of the sink; the comment parser yields an empty literal", 4)
+	r.Rule("R2", "silent statements are silent: at top level only return-style statements, literal text and let reach the sink; inside blocks an expression statement yields a value only if its NODE is literal text or the value is a control-flow object", 3)
+	r.Rule("R3", "literal text is not transformed after the lexer: token literal -> HTMLLiteral.Value -> template.HTML(Value) -> verbatim arm of the sink; the comment parser yields an empty literal", 3)
 	r.Rule("R4", "literal-text scanner: in every iteration, each byte the loop steps over has first been tested for being a tag start ('<' followed by '%'); no path (in particular not the one through the escape handling) reaches the trailing readChar without that test", 1)
 	topLevelWriteRule(r, "R1")
 	silentStatementsRule(r, "R2")
